@@ -498,13 +498,23 @@ impl TimeSource for FixedTime {
     }
 }
 
+/// `compression_enabled` of the next configuration this harness builds: alternates (deterministic:
+/// the harness is single-threaded).  The `compression` feature is not part of this build, so both
+/// values must behave alike (Compression::None either way) — a flag that changed anything a
+/// property observes shows up as a disagreement on every second case.
+pub fn compress_flag() -> bool {
+    use std::sync::atomic::{AtomicU64, Ordering};
+    static N: AtomicU64 = AtomicU64::new(0);
+    N.fetch_add(1, Ordering::Relaxed) % 2 == 1
+}
+
 pub fn wb_config() -> WriteBufferConfig {
     WriteBufferConfig {
         flush_interval: std::time::Duration::from_secs(3600),
         max_size_bytes: 1 << 30,
         max_deltas: 1 << 30,
         backpressure_threshold_bytes: 1 << 40,
-        compression_enabled: false,
+        compression_enabled: compress_flag(),
     }
 }
 
@@ -539,7 +549,7 @@ pub fn compactor_ms(store: &FaultStore, c: &CCfg, max_segments: u64) -> Compacto
         min_segments_to_compact: c.min as usize,
         max_segments_per_compaction: c.maxper as usize,
         tombstone_ttl: c.ttl,
-        compression_enabled: false,
+        compression_enabled: compress_flag(),
     };
     Compactor::with_time_source(
         Arc::new(store.clone()),
@@ -1391,6 +1401,15 @@ pub fn run(a: &Args) {
     rt2.block_on(async {
         { let mark = out.n_ops(); if let Err(msg) = guarded(crate::c12x::run_all(&mut out, &mut rng, (a.n / 20 + 10).min(4_000), true)).await { report_panic(&mut out, "C12", "worker-pipeline", &format!("seed {}", a.seed), mark, &msg); } }
     });
+    // the manifest object byte for byte (serde_json of `Manifest` vs model M4j)
+    {
+        let mark = out.n_ops();
+        let r = std::panic::catch_unwind(std::panic::AssertUnwindSafe(|| crate::c12j::run_all(&mut out, &mut rng, (a.n / 400 + 6).min(2_000))));
+        if let Err(e) = r {
+            let msg = e.downcast_ref::<String>().cloned().or_else(|| e.downcast_ref::<&str>().map(|s| s.to_string())).unwrap_or_else(|| "panic".into());
+            report_panic(&mut out, "C12", "manifest-json", &format!("seed {}", a.seed), mark, &msg);
+        }
+    }
     crate::stream_api::report(&mut out, "C12");
     out.finish("case = one workload of 3..11 push/flush/compact operations on a real StreamingPersistence + Compactor over a counting, fault-injecting, snapshotting ObjectStore (0..2 faults {error without effect, error after a torn object} at generated call indices), followed by real recovery on the store image at EVERY call boundary (and inside every put); distinct by the op text incl. the fault placement; non-trivial iff some flush returned Ok and the run has a fault, an error or a compaction");
 }
